@@ -759,12 +759,24 @@ def _materialise(r):
 
 
 def _run_probe_body(p, env, out):
-    target = _ev(p["target"], env)
+    # The callable and its arguments are looked up in the configured interpreter like everything else: a
+    # public name that the package does not bind (AttributeError on a lena module), or a lena callable
+    # that fails while an argument is built, is an OBSERVATION of the tree under test - a step "resolve" -
+    # and is judged like every other step. Anything else that goes wrong here is a mistake of the canned
+    # driver (a harness bug) and stops the run.
+    def build():
+        return (_ev(p["target"], env), [_ev(a, env) for a in p.get("args", [])],
+                {k: _ev(v, env) for k, v in sorted(p.get("kwargs", {}).items())})
     try:
-        args = [_ev(a, env) for a in p.get("args", [])]
-        kwargs = {k: _ev(v, env) for k, v in sorted(p.get("kwargs", {}).items())}
-    except Exception as e:  # noqa - a probe that cannot even build its arguments is a harness bug
-        raise RuntimeError("probe %r: cannot build arguments: %r" % (p["id"], e))
+        target, args, kwargs = build()
+    except _Timeout:
+        raise
+    except Exception as e:  # noqa
+        info = describe_exc(e)
+        if not (info["forbidden"] or info["where"]):
+            raise RuntimeError("probe %r: cannot build the call: %r" % (p["id"], e))
+        out.append(["resolve", "exc", info])
+        return
     ok, obj = _step(out, "construct", lambda: target(*args, **kwargs))
     if not ok:
         return
